@@ -15,7 +15,7 @@ from oracles.treecheck import flat_shape as shape
 from vlib.core import Leg, Result, exc_failure
 
 ID = 'C19'
-RULE = ('API cases: encoding e in {utf-8, latin-1, cp1252, cp1251, gbk, shift_jis, koi8-r, utf-16; API forms also utf-16-le, utf-32-be, utf-7, iso2022_jp, hz} x text = grammar script (4/8), CASE-heavy script (2/8), GO-only batches without any semicolon (1/8), any text of the shared source mix (1/8, API only), with characters drawn from what e can encode '
+RULE = ('long-streams: texts of 66 000-140 000 characters built from statements with multi-line comments, literals, dollar bodies and keywords, as stream / bytes vs str. API cases: encoding e in {utf-8, latin-1, cp1252, cp1251, gbk, shift_jis, koi8-r, utf-16; API forms also utf-16-le, utf-32-be, utf-7, iso2022_jp, hz} x text = grammar script (4/8), CASE-heavy script (2/8), GO-only batches without any semicolon (1/8), any text of the shared source mix (1/8, API only), with characters drawn from what e can encode '
         '(construction) x form in {str, bytes+encoding=e, UTF-8 bytes without encoding, non-UTF-8 Latin-1 bytes without encoding, io.StringIO} x function in {parse, '
         'parsestream, split, format + drawn valid options}; results must equal those for the str form (statement texts, tree shapes, get_type). CLI cases: argv built from '
         'a drawn option set via a flag table written from --help, input as file or stdin bytes in e, output to stdout or -o; sqlparse.cli.main(argv) in-process; the '
@@ -283,5 +283,39 @@ def check_cli(case):
     return res
 
 
-LEGS = [Leg('api', check=check_api, strategy=lambda tier: api_cases(), examples={'quick': 6000, 'thorough': 100000}),
+LONG_UNITS = ["select a, /* a comment\n   over ; two lines */ b from t where c = 'x';\n",
+              "insert into t values ('first line\nsecond ; line', 1);\n",
+              "select 1 from t\norder\nby a;\n",
+              "create function f() returns int as $$\nbegin\n  return 1;\nend;\n$$;\n",
+              "select 'é' -- note ;\nfrom u;\n"]
+
+
+@st.composite
+def long_stream_cases(draw):
+    """inputs longer than any I/O block size (64 Ki, 128 Ki characters) whose multi-line tokens lie across every offset"""
+    target = draw(st.sampled_from([66000, 70000, 131500, 140000]))
+    pad = draw(st.integers(0, 40))
+    units = [draw(st.sampled_from(LONG_UNITS)) for _ in range(6)]
+    text = ' ' * pad
+    i = 0
+    while len(text) < target:
+        text += units[i % len(units)]
+        i += 1
+    func = draw(st.sampled_from(['split', 'parse', 'format', 'parsestream']))
+    opts = draw(st.sampled_from([{}, {'strip_comments': True}, {'keyword_case': 'upper'}])) if func == 'format' else {}
+    form = draw(st.sampled_from(['stream', 'stream', 'bytes+encoding', 'utf8-bytes']))
+    return {'enc': 'utf-8', 'text': text, 'func': func, 'opts': opts, 'form': form}
+
+
+def check_long(case):
+    res = check_api(case)
+    res.key = [len(case['text']), case['text'][:120], case['func'], case['form'], sorted(case['opts'].items())]
+    res.labels = ['long-input', 'form:' + case['form'], 'func:' + case['func']]
+    res.sample = {'length': len(case['text']), 'form': case['form'], 'func': case['func']}
+    res.nontrivial = True
+    return res
+
+
+LEGS = [Leg('long-streams', check=check_long, strategy=lambda tier: long_stream_cases(), examples={'quick': 48, 'thorough': 600}),
+        Leg('api', check=check_api, strategy=lambda tier: api_cases(), examples={'quick': 6000, 'thorough': 100000}),
         Leg('cli', check=check_cli, strategy=lambda tier: cli_cases(), examples={'quick': 1500, 'thorough': 10000})]
